@@ -99,6 +99,21 @@ TailVerbatim ==
   (Done /\ ~Fam.specs[si].hasend /\ HasMarker(argv)) =>
      \A b \in Accepting(Ctx(Clean), Fam.specs[si].ast, argv) : IsSuffixOf(AfterMarker(argv), ArgValues(b))
 
+\* C02 on the reference itself: on a --free spec without environment-backed options every accepting derivation is exactly the
+\* item reading of the command line (CmdLine!ItemsOf): each option holds the values of its occurrences in command-line order,
+\* the positionals are bound in order, nothing is invented, dropped or duplicated; a line with no item reading is rejected
+ItemsHere == ItemsOf(ProgOf(si), argv, FALSE)
+OccValues(items, o) == LET sel == SelectSeq(items, LAMBDA it : it.k = "occ" /\ it.o = o) IN [i \in 1..Len(sel) |-> sel[i].v]
+PosValues(items) == LET sel == SelectSeq(items, LAMBDA it : it.k = "pos") IN [i \in 1..Len(sel) |-> sel[i].v]
+OccOpts(items) == {items[i].o : i \in {j \in 1..Len(items) : items[j].k = "occ"}}
+DerivationIsItemReading ==
+  (Done /\ ~Fam.specs[si].hasend /\ env = {}) =>
+     LET items == ItemsHere acc == Accepting(Ctx(Clean), Fam.specs[si].ast, argv) IN
+     IF HasBad(items) THEN acc = {}
+     ELSE \A d \in acc : /\ DOMAIN d.ob = OccOpts(items)
+                          /\ \A o \in DOMAIN d.ob : d.ob[o] = OccValues(items, o)
+                          /\ ArgValues(d) = PosValues(items)
+
 \* the greedy deviation only ever loses sentences (it is a restriction of the clean semantics)
 GreedyRestricts == Done => (out.accG \subseteq out.acc \/ out.uncl)
 =============================================================================
